@@ -1,7 +1,7 @@
 (* Model/Dispatch.v — one integer-list interface over all executable models,
    used by the extracted OCaml driver and by the in-kernel cases.v sample. *)
 From Coq Require Import ZArith List Bool.
-From Verif Require Import Base.Word64 Model.Sketch Model.Expiry Model.Wheel Model.Policy Model.Store Model.Ring Model.Flight Model.Persist Model.Shard.
+From Verif Require Import Base.Word64 Model.Sketch Model.Expiry Model.Wheel Model.Policy Model.Store Model.Ring Model.Flight Model.Persist Model.Shard Model.RBMutex.
 Import ListNotations.
 Open Scope Z_scope.
 
@@ -15,9 +15,10 @@ Inductive mstate :=
 | MFlight (f : flight)
 | MPersist (p : pstate)
 | MShard (s : shards)
+| MRBMutex (r : rbm)
 | MNone.
 
-(* model ids: 1 sketch, 2 expiry arithmetic, 3 timer wheel, 4 eviction policy, 5 store pipeline, 6 read ring, 7 singleflight, 8 persistence, 9 key addressing (shards) *)
+(* model ids: 1 sketch, 2 expiry arithmetic, 3 timer wheel, 4 eviction policy, 5 store pipeline, 6 read ring, 7 singleflight, 8 persistence, 9 key addressing (shards), 10 reader-biased mutex *)
 Definition m_init (model : Z) (cfg : list Z) : mstate :=
   match model with
   | 1 => MSketch (sk_init cfg)
@@ -29,6 +30,7 @@ Definition m_init (model : Z) (cfg : list Z) : mstate :=
   | 7 => MFlight (fl_init cfg)
   | 8 => MPersist (ps_init cfg)
   | 9 => MShard (shd_init cfg)
+  | 10 => MRBMutex (rbm_init cfg)
   | _ => MNone
   end.
 
@@ -43,6 +45,7 @@ Definition m_step (m : mstate) (op : list Z) : mstate * list Z :=
   | MFlight f => let '(f', o) := fl_step f op in (MFlight f', o)
   | MPersist p => let '(p', o) := ps_step p op in (MPersist p', o)
   | MShard s => let '(s', o) := shd_step s op in (MShard s', o)
+  | MRBMutex r => let '(r', o) := rbm_step r op in (MRBMutex r', o)
   | MNone => (MNone, [-999])
   end.
 
